@@ -431,7 +431,8 @@ def run_check(pid: str, tier: str) -> int:
         "components_stub": getattr(mod, "COMPONENTS_STUB", []),
         "known_findings_seen": {k: c for k, (_, c) in known_seen.items()},
         "violation_signatures": new_sigs,
-        "harness_errors": len(agg["errors"]),
+        "harness_errors": len([e for e in agg["errors"] if "harness watchdog" not in e["error"]]),
+        "runs_abandoned_by_watchdog": len([e for e in agg["errors"] if "harness watchdog" in e["error"]]),
         "truncated_by_wall_cap": truncated,
         "jobs": jobs,
         "exhaustive": False,
@@ -451,9 +452,19 @@ def run_check(pid: str, tier: str) -> int:
         json.dump(_strict(doc), f, indent=1, default=str, allow_nan=False)
     print(f"[{pid}] runs={agg['n']} distinct={len(agg['digests'])} nontrivial={dn} faults={dict(agg['faults'])} "
           f"known={len(known_seen)} new_violations={len(new_sigs)} errors={len(agg['errors'])} wall={wall:.1f}s", flush=True)
-    if agg["errors"]:
-        print(f"[{pid}] HARNESS ERRORS ({len(agg['errors'])}) at run indices {[e['run_index'] for e in agg['errors']][:10]}, first:", file=sys.stderr)
-        print(agg["errors"][0]["error"], file=sys.stderr)
+    # A run that exhausts the watchdog's CPU allowance is abandoned, not judged: the operations themselves are bounded by
+    # deterministic caps (random draws, gene reads), so such a run is a huge but finite computation.  A handful per check is
+    # reported and tolerated; more than that (or any other harness exception) makes the check fail as a harness error.
+    abandoned = [e for e in agg["errors"] if "harness watchdog" in e["error"]]
+    other = [e for e in agg["errors"] if "harness watchdog" not in e["error"]]
+    allowed = max(3, agg["n"] // 5000)
+    if abandoned:
+        print(f"[{pid}] {len(abandoned)} run(s) abandoned by the watchdog (CPU allowance {timeout:.0f}s per run; up to {allowed} tolerated) "
+              f"at run indices {[e['run_index'] for e in abandoned][:10]}", file=sys.stderr)
+    if other or len(abandoned) > allowed:
+        bad = other or abandoned
+        print(f"[{pid}] HARNESS ERRORS ({len(bad)}) at run indices {[e['run_index'] for e in bad][:10]}, first:", file=sys.stderr)
+        print(bad[0]["error"], file=sys.stderr)
         if exit_code == 0:
             return 2
     if ev_err is not None and exit_code == 0:
